@@ -10,7 +10,7 @@ TB_COMMON = [
 
 NOT_YET = {}
 # specs present but not claimed right now (proofs under repair after a cross-branch model change)
-DISABLED = {"C14"}
+DISABLED = set()
 
 SPECS = {
     "C18": {
@@ -176,17 +176,33 @@ SPECS["C03"] = node_spec(
 P_NOTE = " The abstract protocol P/Election.v is tied to the code by the executable acceptor P/ElectionAccept.v (proved sound: an accepted trace is a P execution), run on the P-level event trace (per-call term/vote/role, hard-state hand-out and fsync, released vote requests/grants/leader traffic, crashes, restarts) of every simulated execution up to its first applied membership change."
 
 SPECS["C02"] = node_spec(
-    "C02", ["hard", "msgs.vote"], "election_safety",
+    "C02", [], "election_safety",
     "Props/C02.v: in every execution of the abstract election protocol (any interleaving of campaigns, grants, hand-out/fsync of hard states, releases, duplicated/delayed/reordered messages, crashes at any point, restarts from the durable image; pre-vote/check-quorum/priority/transfer over-approximated by free choice) at most one node ever takes the leader role in a term when no single node is a quorum, and for every configuration (single-voter groups included) leaders with a durable own vote are unique per term and at most one node ever releases traffic as leader of a term; the role-level statement is refuted with an explicit witness for a single voter whose own vote need not be durable (the defect F1 found and fixed in /repo)." + P_NOTE,
     "the voter configuration is fixed within an execution: elections racing single-step or joint membership changes are not covered by the theorems (only by the pointwise differential and the monitor).",
     "DESIGN.md section 7, C02; section 2.2-2.3",
-    "Theorems: Props/C02.v over P/Election.v. Ties: (B) acceptor on P-level traces; (A) pointwise differential of M/Raft.v on hard state + vote traffic.",
+    "Theorems: Props/C02.v over P/Election.v. Deciding tie: (B) acceptor on P-level traces (the pointwise differential (A) is diagnostic only for this property: a behaviour change that P still allows does not fail it).",
     acceptor="pelection")
 
 SPECS["C06"] = node_spec(
-    "C06", ["hard", "result", "rawnode", "msgs.vote", "msgs.resp"], "persist_before_send",
+    "C06", ["result", "rawnode"], "persist_before_send",
     "Props/C06.v: in every execution of the abstract election protocol a node grants at most one candidate its vote in any term, ever (across crashes and restarts); every released vote grant, vote request and leader message is covered by the sender's durable (term, vote) and by its volatile state, so a restart from stable storage is never behind what it told others; within an incarnation the term never decreases." + P_NOTE + " The Ready-level release discipline (which messages a Ready holds back until persistence) is tied by the pointwise differential on Ready contents and RawNode bookkeeping.",
     "append acknowledgements and the log part of 'never behind' need the log layer of P and are not yet proved.",
     "DESIGN.md section 7, C06; section 2.2-2.3",
     "Theorems: Props/C06.v over P/Election.v. Ties: (B) acceptor on P-level traces; (A) pointwise differential on Ready contents, records, hard state.",
     acceptor="pelection")
+
+SPECS["C15"] = node_spec(
+    "C15", ["log", "conf", "progress", "msgs.repl", "msgs.resp"], "snapshot",
+    "Props/C15.v (21 pinned theorems, every node state and message): a snapshot is installed only if it is not behind the commit index, the node is a follower and a member of the snapshot's configuration, and it is not a matching unrequested one; the exact effect of an install (commit = snapshot index, boundary term, unstable snapshot, next index, persisted rule, configuration = restore of the snapshot's ConfState with exactly its members tracked, promotable flag, request cleared; term/vote/role untouched); a matching snapshot that the node did not request (none pending, or below the requested index) only advances the commit index and discards nothing; the three rejection cases; the reply; the leader emits a snapshot only if the peer is recently active and either asked for one or the term/entries lookup failed (compacted), entering Snapshot state at the sent index; resumption after a status report or a caught-up acknowledgement; compaction of applied entries leaves every RaftLog query at or above the compaction point unchanged. The defect F2 found here (a delayed older snapshot truncating acknowledged entries while a request was pending) was fixed in /repo; a regression guard is pinned.",
+    "the cross-node clause (installed state equals that of a node that applied the log to the snapshot index), the application state, and the step-level frame of compaction are not proved.",
+    "DESIGN.md section 7, C15",
+    "Theorems: Props/C15.v over M/Raft.v, M/RaftLog.v, M/MemStorage.v. Tie: pointwise differential, projection log+conf+progress+replication/response traffic.")
+
+SPECS["C09"] = node_spec(
+    "C09", ["conf", "hard", "log", "result"], "conf_change",
+    "Props/C09.v (46 pinned theorems, every node state and input): the proposal filter is characterised completely (a conf-change entry is kept iff nothing is pending and it fits the joint state, otherwise replaced by an empty normal entry; a decode error drops the proposal; at most one survives a proposal); the leader invariant 'every conf-change entry above applied is at or below pending_conf_index' is established by become_leader and preserved by every function of the Raft and RawNode models; no node campaigns (timeout, MsgHup, MsgTimeoutNow) while has_unapplied_conf_changes answers true, and a (pre-)candidate that learns a committed conf change through vote traffic steps down; a non-promotable node never campaigns by tick or MsgTimeoutNow and promotable = voter after every configuration switch; a rejected apply_conf_change leaves the node untouched and a successful one yields exactly the ConfChange model's configuration (C12); auto-leave is proposed once.",
+    "the cross-node clause (nodes at the same applied index have identical configurations, also after restart) and the literal whole-log 'at most one conf entry beyond applied' are protocol-level and not proved (the latter is refuted for a restarted node whose applied index lags, with a witness); Raft::new is not in the model.",
+    "DESIGN.md section 7, C09",
+    "Theorems: Props/C09.v over M/Raft.v, M/RawNode.v. Tie: pointwise differential, projection conf+hard+log+results.")
+
+SPECS["C09"]["incoq"] = {"quick": 40, "thorough": 200}
